@@ -123,9 +123,46 @@ def gen_c07_case(rng):
     return "vsock " + " ".join(str(x) for x in cfg) + " " + " ".join(ops)
 
 
+def gen_halfclosed_zerownd(rng, n):
+    """Deterministic shape (seeded C07-a): we shut our write half down first (FinWait1; FinWait2 when the peer acknowledges the
+    FIN), the peer goes on sending until our receive buffer is full (window 0 advertised), the reader drains: the poll that
+    follows must emit the window update at once; also the same without the shutdown (Established)."""
+    out = []
+    for i in range(n):
+        r = rng.fork("hz%d" % i)
+        rx = r.choice([3000, 3000, 2900, 4000])
+        isn, rseq = r.choice([100, 65534, r.below(65536)]), r.choice([1, 65535, r.below(65536)])
+        cfg = ["vsock", "out", 1, r.choice([1500, 1500, 9000]), rx, 32768, 1048576, r.choice([0, 1]), 5, 10_000_000_000, 1, 1,
+               isn, rseq, 7, 1048576, 5, 1_000_000]
+        ops, ts = ["P"], [10]
+        fin = r.below(3)          # 0: stay Established, 1: FinWait1, 2: FinWait2
+        our_next = (isn + 1) % 65536
+        if fin:
+            ops += [r.choice(["H", "DW"]), "P"]
+        ack = (our_next if fin == 2 else our_next - 1) % 65536
+
+        def data(seq, plen):
+            ts[0] += r.range(1, 3000)
+            return f"M0,{seq % 65536},{ack},1048576,{ts[0]},{plen},0,-"
+        seq = rseq
+        for _ in range(r.choice([2, 2, 3])):
+            ops.append(data(seq, r.choice([1400, 1400, 1300]))); seq += 1
+            if r.below(3) == 0:
+                ops.append("P")
+        ops.append("P")
+        ops += ["R100000", "P"]
+        if r.below(2):
+            ops += ["T41000000", "P"]
+        if r.below(2):
+            ops.append(data(seq, 100)); ops += ["P", "T90000000", "P"]
+        out.append(" ".join(str(x) for x in cfg) + " " + " ".join(ops))
+    return out
+
+
 def gen_own(rng, tier):
     n = 250 if tier == "quick" else 5000
-    return [gen_c07_case(rng.fork("c07_%d" % i)) for i in range(n)]
+    return [gen_c07_case(rng.fork("c07_%d" % i)) for i in range(n)] + \
+        gen_halfclosed_zerownd(rng.fork("halfclosed"), 24 if tier == "quick" else 600)
 
 
 def gen_all(rng, tier):
